@@ -76,9 +76,18 @@ func bProg(nThreads, opsPerThread int, cleaner func() Cleaner, nops int) func() 
 			}()
 		}
 		progRelease(&done, nThreads, func() { cancelCtx(1, cancel) })
-		// a Close waiting for uncommitted reads is released by resolving them (documented precondition)
+		// a Close waiting for uncommitted reads is released by resolving them (documented
+		// precondition) - repeatedly, because a Get that was still in flight at the first Rollback
+		// can leave a new uncommitted read behind, which the thread may then try to Close.
 		cs[0].rollback()
 		cs[1].rollback()
+		for int(done.Load()) < nThreads {
+			vrt.Yield()
+			if int(done.Load()) < nThreads {
+				cs[0].rollback()
+				cs[1].rollback()
+			}
+		}
 		wg.Wait()
 		h.diff(cs[0])
 		h.diff(cs[1])
